@@ -273,7 +273,7 @@ func c01r2(c *core.Ctx) {
 			switch x := n.(type) {
 			case *ast.AssignStmt:
 				for i, r := range x.Rhs {
-					if cl, ok := ast.Unparen(r).(*ast.CallExpr); ok {
+					if cl, ok := m.StripConv(r).(*ast.CallExpr); ok {
 						if rv, ok := callTo(m, cl, tr.Add); ok && rv != nil && i < len(x.Lhs) {
 							creations = append(creations, creation{cl, rv, m.ExprString(x.Lhs[i]), m.ExprString(cl.Args[0])})
 						}
@@ -729,7 +729,7 @@ func c01r3(c *core.Ctx) {
 		core.InspectNoLits(f.Body, func(n ast.Node) bool {
 			if as, ok := n.(*ast.AssignStmt); ok {
 				for i, r := range as.Rhs {
-					if cl, ok := ast.Unparen(r).(*ast.CallExpr); ok && i < len(as.Lhs) {
+					if cl, ok := m.StripConv(r).(*ast.CallExpr); ok && i < len(as.Lhs) {
 						if rv, ok := callTo(m, cl, tr.Add); ok && rv != nil {
 							added[m.ExprString(rv)] = m.ExprString(as.Lhs[i])
 						}
@@ -1616,6 +1616,17 @@ func c01r7(c *core.Ctx) {
 		}
 		searched := false
 		core.InspectNoLits(f.Body, func(n ast.Node) bool {
+			// the search written with the standard helper: slices.IndexFunc(g.nodes, func(n node) bool { return n.mask.Equals(mask) })
+			if call, ok := n.(*ast.CallExpr); ok && stdSearchOver(m, call, "graph.nodes") {
+				ast.Inspect(call.Args[1], func(y ast.Node) bool {
+					if c2, ok := y.(*ast.CallExpr); ok {
+						if k, cal, _ := m.Callee(c2); k == core.CallStatic && cal != nil && returnsBool(cal) && (cal.Recv == "bitMask256" || cal.Recv == "bitMask64") {
+							searched = true
+						}
+					}
+					return true
+				})
+			}
 			is, ok := n.(*ast.IfStmt)
 			if !ok {
 				return true
